@@ -31,7 +31,7 @@ USER_ERROR = ("duplicate-intermediate-parameters", "call-invalid", "invalid-new-
               "kw-removed-under-extra", "receiver-moved", "add-collides-with-call-keyword")
 # "readd-removed-name" stays a class of its own (side_ok still excludes it) but is no open finding any more
 # (fixed by 26a80fc): an oracle failure in it is reported as a VIOLATION
-FINDING = ("kwonly", "nested-call", "subclass-ctor", "add-default-under-surplus", "star-call-position-change", "readd-removed-name")
+FINDING = ("kwonly", "nested-call", "add-default-under-surplus", "subclass-ctor", "star-call-position-change", "star-not-last", "readd-removed-name")
 
 
 # ----------------------------------------------------------------------------- interning + Gallina printers
@@ -149,7 +149,7 @@ def classify(case, site, new_tokens, old_status):
     if site.get("nested"):
         return "nested-call"
     if site.get("style") == "subctor":
-        return "subclass-ctor"
+        reasons.append("subclass-ctor")      # modelled: the finders do not reach it, the text stays (user errors come first)
     if old_status == "old-invalid":
         reasons.append("call-invalid")
     if True:
@@ -200,7 +200,9 @@ def classify(case, site, new_tokens, old_status):
     if star_call:
         if all(ch[0] == "norm" for ch in case["changers"]) and not reasons:
             return "star-call-identity"
-        reasons.append("star-call-position-change")
+        # a starred argument that is not the last positional is read as an ordinary argument (CallInfo.read only
+        # looks at args[-1]): a defect of its own, with its own ways of failing
+        reasons.append("star-not-last" if site.get("star_first") else "star-call-position-change")
     for cl in USER_ERROR + FINDING:
         if cl in reasons:
             return cl
@@ -351,16 +353,23 @@ def remover_deletes():
     return _PROBE["rdel"]
 
 
+def g_callee(s):
+    """what the callee expression of the site statically denotes (generator truth)"""
+    if s.get("style") == "subctor":
+        return "CSubclass"
+    return "CClass" if s["ctor"] else "CTarget"
+
+
 def g_ecase(I, case, ob):
     sites = []
     for s in case["sites"]:
         stars = [] if s["star"] is None else [g_pair(gN(I, s["star"]), gN(I, "*" + s["star"]))]
-        sites.append("{| s_implicit := %s; s_ctor := %s; s_call := %s; s_stars := %s |}" % (
-            g_bool(s["implicit"]), g_bool(s["ctor"]), g_rend(I, L.site_rendered(s)), g_list(stars)))
+        sites.append("{| s_callee := %s; s_implicit := %s; s_ctor := %s; s_call := %s; s_stars := %s |}" % (
+            g_callee(s), g_bool(s["implicit"]), g_bool(s["ctor"]), g_rend(I, L.site_rendered(s)), g_list(stars)))
     newdef = None if (ob["new"] is None or ob["tokens"] is None) else g_ptokens(I, ob["tokens"])
     calls = [] if ob["new"] is None else [g_rend(I, r) for r in ob["rendered"]]
-    return "{| e_rdel := %s; e_fixed := %s; e_ast := %s; e_cs := %s; e_sites := %s; e_newdef := %s; e_newcalls := %s |}" % (
-        g_bool(True), g_bool(True), g_ast(I, case), g_list([g_changer(I, c) for c in case["changers"]]),
+    return "{| e_init := %s; e_rdel := %s; e_fixed := %s; e_ast := %s; e_cs := %s; e_sites := %s; e_newdef := %s; e_newcalls := %s |}" % (
+        g_bool(case["kind"] == "init"), g_bool(True), g_bool(True), g_ast(I, case), g_list([g_changer(I, c) for c in case["changers"]]),
         g_list(sites), g_opt(newdef), g_list(calls))
 
 
@@ -439,17 +448,32 @@ def case_verdict(case, ob):
     return False, None, ""
 
 
+def failure_kind(detail):
+    """how the failure shows: part of the signature, so that a known shape failing in a NEW way is a VIOLATION"""
+    d = detail or ""
+    if "not a call expression" in d or "not splittable" in d or "does not compile" in d or "not found" in d:
+        return "syntax"
+    if "callee expression" in d:
+        return "callee"
+    if "program output differs" in d:
+        return "exec"
+    if "does not bind" in d or "no longer binds" in d or "received" in d or "receives" in d or "dropped in favour" in d or "took its default" in d:
+        return "binding"
+    return "other"
+
+
 def replay_obj(case, cl, detail, stream):
-    return {"kind": stream, "case": case, "class": cl or "in-domain", "observed": detail}
+    return {"kind": stream, "case": case, "class": cl or "in-domain", "failure": failure_kind(detail), "observed": detail}
 
 
 def signature(obj):
-    return obj.get("class", "in-domain")
+    """structural class of the input + the way it fails (+ a marker when the model does not predict rope's output)"""
+    return "%s:%s%s" % (obj.get("class", "in-domain"), obj.get("failure", "other"), obj.get("unpredicted", ""))
 
 
 def mk_site(k, func, pos=(), kws=(), style="plain", module="m.py", star=None, star_vals=(), **extra):
     s = {"k": k, "module": module, "func": func, "style": style, "implicit": style in ("inst", "self"),
-         "ctor": style == "ctor", "infunc": False, "layout": 0, "pos": list(pos), "kws": [tuple(x) for x in kws],
+         "ctor": style in ("ctor", "selfctor"), "infunc": False, "layout": 0, "pos": list(pos), "kws": [tuple(x) for x in kws],
          "star": star, "kwstar": None, "star_len": len(star_vals), "star_vals": list(star_vals), "kwstar_keys": []}
     s.update(extra)
     return s
@@ -473,7 +497,7 @@ def check_e2e(ctx, cases, stream="e2e", text_only=False):
     for s0 in range(0, len(cases), shard):
         terms = [g_ecase(I, c, o) for c, o in zip(cases[s0:s0 + shard], obs[s0:s0 + shard])]
         bodies.append(HEADER + "Definition cases : list ecase := %s.\nEval vm_compute in (emismatches cases).\n"
-                      "Eval vm_compute in (edomain cases).\n" % g_list(terms).replace("; {| e_rdel", ";\n {| e_rdel"))
+                      "Eval vm_compute in (edomain cases).\n" % g_list(terms).replace("; {| e_init", ";\n {| e_init"))
     outs = ctx.coq_files_parallel(bodies) if bodies else []
     mism, domain = {}, []
     for si, out in enumerate(outs):
@@ -489,6 +513,7 @@ def check_e2e(ctx, cases, stream="e2e", text_only=False):
             else:
                 cur.append(x)
     assert len(domain) == len(cases), (len(domain), len(cases))
+    deferred = []
     for idx, (case, ob) in enumerate(zip(cases, obs)):
         ctx.count("%s:kind=%s" % (stream, case["kind"]))
         ctx.count("%s:changers=%d" % (stream, len(case["changers"])))
@@ -529,22 +554,29 @@ def check_e2e(ctx, cases, stream="e2e", text_only=False):
                     f2, cl2, _ = case_verdict(norm_case(c), o)
                     return f2 and cl2 == cl
                 small = norm_case(shrink(case, pred))
-            ctx.violation(replay_obj(small, cl, detail, stream),
-                          "C06 %s: %s [%s] on %s" % (stream, detail, cl or "in-domain", short(small)))
+            robj = replay_obj(small, cl, detail, stream)
+            if idx in mism and not case.get("unmodelled"):
+                # the model does not predict what rope emitted here: not the recorded defect, whatever the shape
+                robj["unpredicted"] = "+model-disagreement"
+            ctx.violation(robj, "C06 %s: %s [%s] on %s" % (stream, detail, cl or "in-domain", short(small)))
         elif idx in mism and not case.get("unmodelled"):
-            code = mism[idx]
-            what = {1: "rewritten definition differs from the model", 2: "rewritten call differs from the model",
-                    4: "in-domain case on which the model does not preserve the binding"}.get(code, "code %d" % code)
-            found = None if text_only else neighbourhood_search(ctx, case)
-            if found is None:
-                ctx.violation(dict(replay_obj(case, None, what, stream), mismatch=what, rope_error=ob["err"],
-                                   broken="correspondence RopeVerif.C06.Runner.run_ecase (model coq/C06/Args.v vs rope/refactor/"
-                                          "change_signature.py + functionutils.py); theorems C06_* no longer speak about the code"),
-                              "C06 %s: %s on %s" % (stream, what, short(case)), no_input=True)
-            else:
-                ctx.violation(found, "C06 %s: %s" % (stream, found["observed"]))
+            deferred.append((idx, case, ob))      # model disagreements are reported after the failing inputs
         if ctx.too_many():
             break
+    for idx, case, ob in deferred:
+        if ctx.too_many():
+            break
+        code = mism[idx]
+        what = {1: "rewritten definition differs from the model", 2: "rewritten call differs from the model",
+                4: "in-domain case on which the model does not preserve the binding"}.get(code, "code %d" % code)
+        found = None if text_only else neighbourhood_search(ctx, case)
+        if found is None:
+            ctx.violation(dict(replay_obj(case, None, what, stream), mismatch=what, rope_error=ob["err"],
+                               broken="correspondence RopeVerif.C06.Runner.run_ecase (model coq/C06/Args.v vs rope/refactor/"
+                                      "change_signature.py + functionutils.py); theorems C06_* no longer speak about the code"),
+                          "C06 %s: %s on %s" % (stream, what, short(case)), no_input=True)
+        else:
+            ctx.violation(found, "C06 %s: %s" % (stream, found["observed"]))
     return obs
 
 
@@ -563,7 +595,12 @@ def neighbourhood_search(ctx, case, budget=60):
             c["kind"], c["params"], c["star"], c["kw"] = case["kind"], case["params"], case["star"], case["kw"]
             c["changers"] = case["changers"]
             c["used"] = case["used"]
-            c["sites"] = [s for s in c["sites"] if s["style"] in [x[2] for x in L.SITE_STYLES[case["kind"]]]]
+            if case.get("nested"):
+                c["nested"] = True
+            else:
+                c.pop("nested", None)
+            key = "nested" if case.get("nested") else case["kind"]
+            c["sites"] = [s for s in c["sites"] if (s["module"], s["func"], s["style"]) in L.SITE_STYLES[key]]
             # regenerate arguments for this signature
             for s in c["sites"]:
                 skip = 1 if c["kind"] in ("method", "init") else 0
@@ -580,6 +617,41 @@ def neighbourhood_search(ctx, case, budget=60):
     return None
 
 
+# ----------------------------------------------------------------------------- interruption
+def interrupted_result(case, modules, stop_at):
+    """('raised', name) | ('changes', new_modules)"""
+    new, err = L.run_rope(case, modules, stop_at=stop_at)
+    return ("raised", err) if new is None else ("changes", new)
+
+
+def check_interrupt(ctx, pairs):
+    """get_changes under a real TaskHandle that is stopped at every notification in turn must either raise
+    (InterruptedTaskError) or hand back the complete change set: performing a partial one rewrites the definition
+    and some modules only, leaving the other call sites bound to the wrong parameters."""
+    for case, ob in pairs:
+        if ob["new"] is None:
+            continue
+        events = []
+        full, err = L.run_rope(case, ob["modules"], events=events)
+        if full != ob["new"]:
+            ctx.violation(dict(replay_obj(case, None, "get_changes with an unstopped TaskHandle differs from get_changes without one", "interrupt"), stop_at=0),
+                          "C06 interrupt: an unstopped TaskHandle changes the result on %s" % short(case))
+            continue
+        for k in range(1, events[0] + 1):
+            kind, res = interrupted_result(case, ob["modules"], k)
+            ctx.case(("interrupt", case["kind"], case["params"], case["changers"], len(case["sites"]), k), nontrivial=True)
+            ctx.traces += 1
+            ctx.count("interrupt:%s" % (kind if kind == "changes" else "raised:" + str(res)))
+            if kind == "changes" and res != ob["new"]:
+                partial = sorted(fn for fn in res if res[fn] != ob["new"][fn])
+                ctx.violation(dict(replay_obj(case, None, "stopped at notification %d of %d: get_changes returned a change set that leaves %s unchanged "
+                                              "while the definition is rewritten" % (k, events[0], ", ".join(partial)), "interrupt"), stop_at=k),
+                              "C06 interrupt: partial change set (stopped at %d/%d, %s not rewritten) on %s" % (k, events[0], ", ".join(partial), short(case)))
+                break
+        if ctx.too_many():
+            break
+
+
 # ----------------------------------------------------------------------------- IntroduceParameter
 def gen_introduce(rng):
     while True:
@@ -594,6 +666,8 @@ def gen_introduce(rng):
         if rng.random() < 0.08:
             case["kwonly"] = [("k1", "0")]
             case["used"] = used + ["k1"]
+            # the header parser turns a (name, default) tuple into a parameter name here: outside the model
+            case["unmodelled"] = any(d is not None for _, d in case["params"])
         return norm_case(case)
 
 
@@ -700,7 +774,7 @@ def check_introduce(ctx, cases):
     for case, ob in zip(cases, obs):
         sites = []
         for s in case["sites"]:
-            sites.append("{| s_implicit := %s; s_ctor := %s; s_call := %s; s_stars := [] |}" % (
+            sites.append("{| s_callee := CTarget; s_implicit := %s; s_ctor := %s; s_call := %s; s_stars := [] |}" % (
                 g_bool(s["implicit"]), g_bool(s["ctor"]), g_rend(I, L.site_rendered(s))))
         newdef = None if (ob["new"] is None or ob["tokens"] is None) else g_ptokens(I, ob["tokens"])
         terms.append("{| i_fixed := %s; i_ast := %s; i_p := %s; i_e := %s; i_sites := %s; i_newdef := %s |}" % (
@@ -740,9 +814,12 @@ def check_introduce(ctx, cases):
         if failed and cl in INTRO_USER_ERROR:
             ctx.count("intro:excluded_failure:%s" % cl)
         elif failed:
-            ctx.violation(replay_obj(case, cl, detail, "intro"), "C06 intro: %s [%s] on %s introduce %s" % (
+            robj = replay_obj(case, cl, detail, "intro")
+            if idx in mism and not case.get("unmodelled"):
+                robj["unpredicted"] = "+model-disagreement"
+            ctx.violation(robj, "C06 intro: %s [%s] on %s introduce %s" % (
                 detail, cl or "in-domain", short(case), case["introduce"]))
-        elif idx in mism:
+        elif idx in mism and not case.get("unmodelled"):
             what = {1: "rewritten definition differs from the model", 4: "in-domain case on which the model does not preserve the binding"}.get(mism[idx], "code %d" % mism[idx])
             ctx.violation(dict(replay_obj(case, None, what, "intro"), mismatch=what, rope_error=ob["err"],
                                broken="correspondence RopeVerif.C06.Runner.run_icase (introduce_def vs rope/refactor/introduce_parameter.py); "
@@ -926,6 +1003,11 @@ def run(ctx):
                         "calls_after": [L.extract_site_text(o["new"][s["module"]], s["k"]) for s in c["sites"]][:3]})
     if ctx.too_many():
         return
+    multi = [(c, o) for c, o in zip(cases, obs) if o["new"] is not None and len({s["module"] for s in c["sites"]}) >= 2
+             and any(ch[0] != "norm" for ch in c["changers"])]
+    check_interrupt(ctx, multi[:ctx.scale(20, 150)])
+    if ctx.too_many():
+        return
     bcases = [norm_case(L.gen_beyond(ctx.rng)) for _ in range(ctx.scale(80, 800))]
     check_e2e(ctx, bcases, "beyond")
     if ctx.too_many():
@@ -964,7 +1046,7 @@ def _model_disagrees(ctx, kind, obj):
     case = norm_case(obj["case"])
     if kind == "intro":
         ob = observe_introduce(case)
-        sites = ["{| s_implicit := %s; s_ctor := %s; s_call := %s; s_stars := [] |}" % (
+        sites = ["{| s_callee := CTarget; s_implicit := %s; s_ctor := %s; s_call := %s; s_stars := [] |}" % (
             g_bool(s["implicit"]), g_bool(s["ctor"]), g_rend(I, L.site_rendered(s))) for s in case["sites"]]
         newdef = None if (ob["new"] is None or ob["tokens"] is None) else g_ptokens(I, ob["tokens"])
         term = "{| i_fixed := %s; i_ast := %s; i_p := %s; i_e := %s; i_sites := %s; i_newdef := %s |}" % (
@@ -992,6 +1074,15 @@ def replay(ctx, obj):
         case = norm_case(obj["case"])
         failed, cl, detail = intro_verdict(case, observe_introduce(case))
         return bool(failed)
+    if kind == "interrupt":
+        case = norm_case(obj["case"])
+        modules = L.build_modules(case)
+        full, err = L.run_rope(case, modules)
+        if full is None:
+            return False
+        k = obj.get("stop_at", 0)
+        res_kind, res = interrupted_result(case, modules, k) if k else ("changes", L.run_rope(case, modules, events=[])[0])
+        return res_kind == "changes" and res != full
     return False
 
 
@@ -1011,7 +1102,7 @@ FINDING_CASES = {
     "introduce-before-vararg": mk_case("func", [("a", None)], "r", None, [], [mk_site(1, "f", ["1", "2"])],
                                        introduce={"expr": "x0", "name": "p"}),
     "subclass-ctor": mk_case("init", [("self", None), ("a", None), ("b", None)], None, None, [("reo", [0, 2, 1], None)],
-                             [mk_site(1, "S1", ["1", "2"], style="subctor", ctor=True)], unmodelled=True),
+                             [mk_site(1, "S1", ["1", "2"], style="subctor", ctor=True)]),
 }
 
 FIXED_CASES = [
